@@ -311,7 +311,8 @@ class Gen(object):
         t.pattern_start = r.choice([0, 0, 3600, 5400])
         t.report_timestep = hyd * r.choice([1, 1, 2])
         t.report_start = r.choice([0, 0, hyd])
-        t.start_clocktime = r.choice([0, 0, 3600 * 6, 3600 * 13 + 1800])
+        t.start_clocktime = r.choice([0, 0, 3600 * 6, 3600 * 13 + 1800, 12 * 3600, 12 * 3600 + 1800, 12 * 3600 + 3599, 1800, 59, 86399,
+                                      11 * 3600 + 3599, r.randrange(0, 86400)])     # every hour of the day, noon and midnight hours in particular
         t.statistic = r.choice(['NONE', 'NONE', 'AVERAGED', 'MINIMUM', 'MAXIMUM', 'RANGE'])
         h = wn.options.hydraulic
         h.headloss = r.choice(['H-W', 'H-W', 'H-W', 'D-W', 'C-M'])
